@@ -59,6 +59,18 @@ class Engine(BaseEngine):
             for x in variants[1:]:
                 out.append(("add-ceiling", "hll_add %s %s" % (f([(x, off)]), f([(variants[0], off)]))))
                 out.append(("add-ceiling", "hll_add %s %s" % (f([(x, off), (variants[0], off)]), f([(variants[0], off), (x, off)]))))
+        # a known number of distinct elements none of which falls into one chosen bucket: the sketch keeps an empty register at a
+        # cardinality where linear counting no longer applies; the estimate must stay inside the envelope of the true count
+        for n_el in ((2600, 3000, 4000) if tier == "quick" else (2000, 2400, 2600, 2800, 3000, 3500, 4000, 6000, 10000)):
+            off = rng.choice([0, 7, 16, 23])
+            empty = rng.getrandbits(8)
+            els = set()
+            while len(els) < n_el:
+                e = bytes(rng.getrandbits(8) for _ in range(32))
+                if e[off] != empty:
+                    els.add(e)
+            f = lambda l: C.tl("%s %s" % (C.tb(i), C.tn(o)) for (i, o) in l)
+            out.append(("one-empty-bucket:%d" % n_el, "hll_add %s L0" % f([(e, off) for e in sorted(els)])))
         # all offsets with the all-zero element (register extreme through add_element)
         for off in range(0, 41):
             out.append(("add-zero", "hll_add %s L0" % C.tl(["%s %s" % (C.tb(bytes(32)), C.tn(off))])))
@@ -141,6 +153,11 @@ class Engine(BaseEngine):
                     return Verdict(corr_ok=False, cls="hll-registers", detail="[%s] registers differ from the model" % prof, outcome="regs")
                 if m["errs"] != exp_a + exp_b + exp_a + exp_b:
                     return Verdict(corr_ok=False, cls="hll-errs", detail="model errs %s" % m["errs"], outcome="errs")
+                if gcls.startswith("one-empty-bucket:"):
+                    card = int(gcls.split(":")[1])
+                    if abs(int(i["esta"]) - card) > 0.4 * card:
+                        return Verdict(oracle_ok=False, cls="estimate-outside-envelope",
+                                       detail="[%s] %d distinct elements (one register empty by construction) estimated %s" % (prof, card, i["esta"]), outcome="off")
                 first = "ok"
             elif cmd == "hll_hex":
                 if "imp" not in i or i["imp"] == "panic" or o.endswith("impl=panic"):
